@@ -70,6 +70,45 @@ func c24(x *Ctx) {
 		return ok
 	}
 
+	// mustCarryReplaced: when the key travels in a field of a local struct (ri.ApiKey, or ri passed whole), the
+	// field is assigned the replaced key on EVERY path to the use, not just on one of them.
+	mustCarryReplaced := func(a ssa.Value, use ssa.Instruction, fn *ssa.Function) bool {
+		ld, ok := a.(*ssa.UnOp)
+		if !ok || ld.Op != token.MUL {
+			return true
+		}
+		var al *ssa.Alloc
+		keyField := func(fr eng.FieldRef) bool { return fr.Name == "ApiKey" }
+		switch y := ld.X.(type) {
+		case *ssa.Alloc: // the struct passed by value
+			al = y
+		case *ssa.FieldAddr: // one field of it
+			if base, ok := y.X.(*ssa.Alloc); ok {
+				al = base
+				name := ""
+				if fr, _, ok := eng.FieldRefOf(y); ok {
+					name = fr.Name
+				}
+				keyField = func(fr eng.FieldRef) bool { return fr.Name == name }
+			}
+		}
+		if al == nil || al.Parent() != fn {
+			return true
+		}
+		r := eng.Explore(eng.Query{Fn: fn, Classify: func(in ssa.Instruction, _ eng.Facts) eng.Event {
+			if st, ok := in.(*ssa.Store); ok {
+				if fr, base, ok := eng.FieldRefOf(st.Addr); ok && base == ssa.Value(al) && keyField(fr) && derivedFromReplace(st.Val, in, fn, 0) {
+					return eng.EvKill
+				}
+			}
+			if in == use {
+				return eng.EvSink
+			}
+			return eng.EvNone
+		}})
+		return len(r.Hits) == 0
+	}
+
 	// ---- R1 ------------------------------------------------------------------------------------
 	const r1 = "C24.R1-accept-client-key"
 	accSites := eng.CallSites(route, func(n string, _ ssa.CallInstruction) bool { return n == nIsAccepted })
@@ -138,7 +177,7 @@ func c24(x *Ctx) {
 						continue
 					}
 					nKey++
-					if derivedFromReplace(a, in, f, 0) {
+					if derivedFromReplace(a, in, f, 0) && mustCarryReplaced(a, in, f) {
 						nOK++
 					}
 				}
@@ -151,6 +190,151 @@ func c24(x *Ctx) {
 		})
 	}
 	c.Min(r2, 5)
+
+	// ---- R2b: the key ID handed to acceptance and replacement is resolved whenever key IDs are configured -----
+	const r2b = "C24.key-id-resolved"
+	for f := range entries {
+		eng.Instrs(f, func(in ssa.Instruction) {
+			cl, ok := eng.IsCall(in, nIsAccepted, nReplaceKey)
+			if !ok {
+				return
+			}
+			args := eng.CallArgs(cl)
+			if len(args) < 2 {
+				return
+			}
+			c.Examined++
+			as := &eng.Assume{Bool: func(v ssa.Value) eng.Tri {
+				if isCallValue(v, "(*config.AccessKeyConfig).HasKeyIDs") {
+					return eng.True
+				}
+				return eng.Unknown
+			}}
+			blank := false
+			var path []*ssa.BasicBlock
+			r := eng.Explore(eng.Query{Fn: f, Assume: as, TrackPhi: func(*ssa.Phi) bool { return true }, Classify: func(i2 ssa.Instruction, F eng.Facts) eng.Event {
+				if i2 == in {
+					if k, ok := eng.ConstString(F.Resolve(args[1])); ok && k == "" {
+						blank = true
+					}
+					return eng.EvSink
+				}
+				return eng.EvNone
+			}})
+			if blank {
+				for _, h := range r.Hits {
+					if k, ok := eng.ConstString(h.Facts.Resolve(args[1])); ok && k == "" {
+						path = h.Path
+					}
+				}
+			}
+			key := BaseName(eng.Root(f)) + "/" + eng.MethodBase(eng.CalleeName(cl))
+			if blank {
+				o := c.Violate(r2b, key, x.Pos(in), "with ReceiveKeyIDs configured a path reaches this call with a blank key ID (the lookup is skipped under some other condition): a key listed by its ID is treated as unlisted here, so this endpoint accepts or replaces keys differently from the others")
+				o.Path = eng.DescribePath(x.P.Pos, path)
+			} else {
+				c.Hold(r2b, key, x.Pos(in), "HasKeyIDs() ⇒ the key ID comes from the lookup")
+			}
+		})
+	}
+	c.Min(r2b, 8)
+
+	// ---- R0: the acceptance predicate itself ------------------------------------------------------------------
+	const r0 = "C24.accept-predicate"
+	if ia := x.Fn(r0, "config", "AccessKeyConfig", "IsAccepted"); ia != nil && len(ia.Params) >= 3 {
+		keyP, idP := ia.Params[1], ia.Params[2]
+		fld := func(name string) func(ssa.Value) bool {
+			return func(v ssa.Value) bool { return loadsField(v, eng.FieldIs("config", "AccessKeyConfig", name)) }
+		}
+		type scen struct {
+			name                                       string
+			only, eqSend, sendSet, listed, hasID, idOK eng.Tri
+			wantNil                                    bool
+		}
+		U, T, F := eng.Unknown, eng.True, eng.False
+		scens := []scen{
+			{"lists-off", F, U, U, U, U, U, true},
+			{"equals-sendkey", T, T, T, U, U, U, true},
+			{"key-listed", T, U, U, T, U, U, true},
+			{"key-id-listed", T, U, U, U, T, T, true},
+			{"nothing-matches", T, F, U, F, U, F, false},
+		}
+		for _, sc := range scens {
+			c.Examined++
+			as := &eng.Assume{Bool: func(v ssa.Value) eng.Tri {
+				if fld("AcceptOnlyListedKeys")(v) {
+					return sc.only
+				}
+				if cl, ok := v.(*ssa.Call); ok && strings.Contains(eng.CalleeName(cl), "slices.Contains") && len(cl.Call.Args) == 2 {
+					switch {
+					case fld("ReceiveKeys")(cl.Call.Args[0]) && cl.Call.Args[1] == ssa.Value(keyP):
+						return sc.listed
+					case fld("ReceiveKeyIDs")(cl.Call.Args[0]) && cl.Call.Args[1] == ssa.Value(idP):
+						return sc.idOK
+					}
+					return eng.Unknown
+				}
+				b, ok := v.(*ssa.BinOp)
+				if !ok {
+					return eng.Unknown
+				}
+				pol := func(t eng.Tri) eng.Tri { // value of the comparison given the truth of its `==` / `>` reading
+					switch b.Op {
+					case token.EQL, token.GTR:
+						return t
+					case token.NEQ, token.LEQ:
+						return t.Not()
+					}
+					return eng.Unknown
+				}
+				isLenSend := func(w ssa.Value) bool {
+					cl, ok := w.(*ssa.Call)
+					if !ok {
+						return false
+					}
+					bi, ok := cl.Call.Value.(*ssa.Builtin)
+					return ok && bi.Name() == "len" && fld("SendKey")(cl.Call.Args[0])
+				}
+				isZero := func(w ssa.Value) bool { k, ok := eng.ConstInt(w); return ok && k == 0 }
+				isEmpty := func(w ssa.Value) bool { k, ok := eng.ConstString(w); return ok && k == "" }
+				switch {
+				case b.X == ssa.Value(keyP) && fld("SendKey")(b.Y), b.Y == ssa.Value(keyP) && fld("SendKey")(b.X):
+					if b.Op == token.EQL || b.Op == token.NEQ {
+						return pol(sc.eqSend)
+					}
+				case isLenSend(b.X) && isZero(b.Y) && (b.Op == token.GTR || b.Op == token.NEQ):
+					return sc.sendSet
+				case isLenSend(b.X) && isZero(b.Y) && b.Op == token.EQL:
+					return sc.sendSet.Not()
+				case fld("SendKey")(b.X) && isEmpty(b.Y) && (b.Op == token.EQL || b.Op == token.NEQ):
+					return pol(sc.sendSet.Not())
+				case b.X == ssa.Value(idP) && isEmpty(b.Y) && (b.Op == token.EQL || b.Op == token.NEQ):
+					return pol(sc.hasID.Not())
+				}
+				return eng.Unknown
+			}}
+			r := eng.Explore(eng.Query{Fn: ia, Assume: as, TrackPhi: func(*ssa.Phi) bool { return true }})
+			bad, n := false, 0
+			for _, e := range r.Exits {
+				ret, isRet := e.Instr.(*ssa.Return)
+				if !isRet || len(ret.Results) != 1 {
+					continue
+				}
+				n++
+				got := e.Facts.Nil(e.Facts.Resolve(ret.Results[0]))
+				if sc.wantNil && got != eng.True || !sc.wantNil && got != eng.False {
+					bad = true
+				}
+			}
+			want := "accepted"
+			if !sc.wantNil {
+				want = "refused"
+			}
+			c.Decide(!bad && n > 0, r0, "IsAccepted/"+sc.name, x.PosOf(ia.Pos()), "every path is "+want,
+				"in the case '"+sc.name+"' IsAccepted is not "+want+" on every path: acceptance depends on something other than AcceptOnlyListedKeys, the listed keys / key IDs and equality with SendKey")
+		}
+	}
+	c.Min(r0, 5)
 
 	// ---- R3 --------------------------------------------------------------------------------------
 	const r3 = "C24.R3-blank-key-blocked"
